@@ -130,7 +130,17 @@ struct Work {
     job: Job,
 }
 
+thread_local! {
+    /// how many stolen items are stacked on the current simulated worker (bounded, the simulated
+    /// stacks are small)
+    static STEAL_DEPTH: RefCell<BTreeMap<u32, usize>> = const { RefCell::new(BTreeMap::new()) };
+}
+
 fn take_work(me: u32, only_batch: Option<u64>) -> Option<Work> {
+    take_work_x(me, only_batch, None)
+}
+
+fn take_work_x(me: u32, only_batch: Option<u64>, not_batch: Option<u64>) -> Option<Work> {
     with_pool(|p| {
         let size = p.size;
         // newest batch first (a rayon worker prefers the most recently pushed job)
@@ -145,6 +155,7 @@ fn take_work(me: u32, only_batch: Option<u64>) -> Option<Work> {
             if let Some(ob) = only_batch {
                 if b.id != ob { continue; }
             }
+            if not_batch == Some(b.id) { continue; }
             if !b.may_take(me, size) { continue; }
             let item = if b.back { b.pending.pop_back() } else { b.pending.pop_front() }.unwrap();
             b.active += 1;
@@ -158,6 +169,9 @@ fn take_work(me: u32, only_batch: Option<u64>) -> Option<Work> {
 
 fn run_work(me: u32, w: Work) {
     rt::note_pickup(me, w.item);
+    // the item is taken but not yet done: others (the owner looking for the rest of its call, workers
+    // that respect the concurrency limit) can observe the pool in this state
+    shuttle::thread::sleep(std::time::Duration::ZERO);
     let job: &(dyn Fn(usize) + Sync) = unsafe { &*w.job };
     let res = catch_unwind(AssertUnwindSafe(|| {
         rt::fault_point("par.task_start");
@@ -229,6 +243,7 @@ pub fn shim_shutdown_pool() {
     for t in threads { t.unpark(); }
     for h in handles { let _ = h.join(); }
     POOL.with(|p| *p.borrow_mut() = None);
+    STEAL_DEPTH.with(|d| d.borrow_mut().clear());
 }
 
 /// Run `job(idx)` for idx in 0..n on the simulated pool.
@@ -290,6 +305,19 @@ fn exec(n: usize, job: &(dyn Fn(usize) + Sync)) {
             if let Some(w) = take_work(me, Some(id)) {
                 run_work(me, w);
                 continue;
+            }
+            // nothing of the own call left to run, but items of it are still running elsewhere: a
+            // rayon worker steals any other pending job meanwhile and runs it on top of this frame
+            let unfinished = with_pool(|p| p.batches.iter().find(|b| b.id == id).unwrap().unfinished);
+            let depth = STEAL_DEPTH.with(|d| d.borrow().get(&me).copied().unwrap_or(0));
+            if cfg.steal_while_waiting && unfinished > 0 && depth < 3 {
+                if let Some(w) = take_work_x(me, None, Some(id)) {
+                    rt::probe("shim.steal_while_waiting", depth as u64, 0);
+                    STEAL_DEPTH.with(|d| *d.borrow_mut().entry(me).or_insert(0) += 1);
+                    run_work(me, w);
+                    STEAL_DEPTH.with(|d| *d.borrow_mut().entry(me).or_insert(1) -= 1);
+                    continue;
+                }
             }
         }
         if with_pool(|p| p.batches.iter().find(|b| b.id == id).unwrap().unfinished == 0) {
@@ -1010,7 +1038,18 @@ pub mod iter {
 
     /// `iter.par_bridge()`: the items are pulled eagerly, then handed out like a Vec
     pub trait ParallelBridge: Sized + Iterator where Self::Item: Send {
-        fn par_bridge(self) -> VecIter<Self::Item> { self.collect::<Vec<_>>().into_par_iter() }
+        fn par_bridge(self) -> VecIter<Self::Item> {
+            // rayon documents no order for the results of a bridged iterator (`collect` returns
+            // them as the workers happened to pull them): the simulated run draws one
+            let mut v = self.collect::<Vec<_>>();
+            if rt::in_sim() && rt::par_cfg().map(|c| c.workers > 1).unwrap_or(false) {
+                for i in (1..v.len()).rev() {
+                    let j = rt::shim_below(i as u64 + 1) as usize;
+                    v.swap(i, j);
+                }
+            }
+            v.into_par_iter()
+        }
     }
     impl<I: Iterator> ParallelBridge for I where I::Item: Send {}
 
